@@ -3,14 +3,18 @@ import json, os, re
 from vlib import core
 
 THEOREMS = ['rd_no_panic', 'rd_total', 'ends_with_error', 'wait_only_when_closing', 'alloc_bounded', 'stage_no_panic',
-            'stage_alloc_bounded', 'oversize_is_error', 'reply_complete_or_error', 'connect_ends_with_error',
+            'stage_alloc_bounded', 'data_alloc_bounded', 'viaData_is_msgData', 'ack_handler_nonblocking', 'handle_guarded_recovers',
+            'oversize_is_error', 'reply_complete_or_error', 'connect_ends_with_error',
             'old_gsv_panics', 'old_oversize_empty_success']
 MODULES = ['LLRP.Model.ReadSide', 'LLRP.Model.ReadStages', 'LLRP.Proofs.ReadSide', 'LLRP.Oracle.C04', 'LLRP.Oracle.C10']
 RULE = ('two valid session transcripts (1.0.1: greeting, two request/reply exchanges, keep-alive, tag report; 1.1: greeting, '
         'GetSupportedVersion and SetProtocolVersion exchanges, keep-alive), each frame of each transcript mutated: truncation at header '
         'bytes and payload bytes (thorough: every byte), declared length 0..9, real+-1, limit, limit+1, limit+2, 2^31, 2^32-1 (with and '
         'without the rest of the session), real payloads of limit and limit+1.. bytes, 14 type codes, flipped payload bytes, random tails, '
-        'garbage. Each scenario runs the real Client in a child process; observed: child survival, Connect result class, every caller\'s '
+        'garbage; handler variants (default handler reading everything, panicking handlers; handlers that call msg.data() / '
+        'msg.UnmarshalTo on unsolicited and awaited+handled frames declaring limit-1, limit, limit+1, 2^28, 2^32-1 with 32 real bytes then EOF, '
+        'or the whole payload); flood then hang-up (1-20 KeepAlives, alone or mixed with reports, while the peer reads nothing, then EOF; 1.0.1 and '
+        'after a 1.1 negotiation); six local-Shutdown scenarios. Each scenario runs the real Client in a child process; observed: child survival, Connect result class, every caller\'s '
         'SendMessage result, runtime.MemStats.TotalAlloc delta against 4*(limit+bytes sent)+1MiB. distinct = distinct scenarios; all non-trivial')
 ASSUMPTIONS = [
     'the read-side model (LLRP.Model.ReadSide/ReadStages) is hand-written; it is tied to reader.go/messages.go by this differential run and by C04',
